@@ -1,16 +1,18 @@
 NS = "np_server_h"
 PROP = dict(
+    extractors=['daemon_server_call_shape'],
     functions=[
         "ntp_proto::server::Server<SymClock>::handle in the daemon's call shape (request = &buf[..length], send buffer = &mut send_buf[..length] of a larger zeroed array; mirrored from ntpd/src/daemon/server.rs ServerTask::serve)",
-        "ntp_proto::packet::NtpPacket::{deserialize, timestamp_response, deny_response, nts_nak_response, serialize}, ExtensionFieldData::{deserialize, serialize}, ExtensionField encoders (unique id, draft id, reference-id response, padding)",
+        "ntp_proto::packet::NtpPacket::{deserialize, timestamp_response, deny_response, serialize}, ExtensionFieldData::{deserialize, serialize}, ExtensionField::encode_unique_identifier",
     ],
     bounds=("first byte and length constant per harness, extension-field type/length words constant, everything else symbolic (header, field contents, MAC bytes, "
             "synchronisation state, clock readings). NTPv3/v4 plain: 48 B and 48+{4,20,24} B MAC, response kinds time / DENY (deny list, allow list, NTS required). "
-            "NTPv4 templates up to 120 B: unique id 36 B (alone, +20 B MAC, twice), unknown+unique id, cookie + unknown field outside NTS, unique id 16 B + 12 B MAC "
-            "(answer re-encoded to the RFC 7822 minimum fits exactly) and + 9 B MAC (answer would be 3 B longer: nothing is sent). NTPv5 templates 76..116 B: draft "
-            "identification alone, + unique id 36 B, + reference-id request 40 B, + padding field 30 B, + unknown field 17 B (non-multiple-of-4 lengths). "
-            "Undecryptable NTS field (80 B, concrete): c15_nts_client_nak. Policy concrete per harness (one response kind each)."),
-    outside=("requests longer than 120 B and other field combinations; NTS requests with valid cookies / placeholders (size of fresh cookies: C17-C19 harnesses of "
+            "NTPv4 templates up to 120 B: unique id 36 B (alone, +20 B MAC, twice), cookie + unknown field outside NTS, unique id 16 B + 12 B MAC "
+            "(answer re-encoded to the RFC 7822 minimum fits exactly). Policy concrete per harness (one response kind each)."),
+    outside=("NTPv5 answers (c16_wire_v5_*: time answer with draft identification + padding does not finish: 7 GB after 10 min; harnesses kept, not registered); answers "
+             "that do NOT fit the request-sized buffer (c16_wire_v4_uid16_mac9_time: any serialisation failure drags symex through the drop glue of "
+             "std::io::Error / Box<dyn Error>: out of memory at 8 GB; by construction nothing can be sent then: the cursor is bounded by the slice); undecryptable NTS "
+             "requests (see C15); requests longer than 120 B and other field combinations; NTS requests with valid cookies / placeholders (size of fresh cookies: C17-C19 harnesses of "
              "np_srvnts_h assert the same bound); the daemon's call shape itself is tied to the source text by the lead's extractor (this file only mirrors it); "
              "symbolic field type words (every decoder/encoder branch per field: does not finish)"),
     assumptions=[
@@ -29,9 +31,7 @@ PROP = dict(
         H(NS, "c16", "c16_wire_v4_mac4_time", "NTPv4 + 4 B MAC: answer 48 B <= 52"),
         H(NS, "c16", "c16_wire_v4_uid36_time", "NTPv4 + 36 B unique id: echoed, answer <= request"),
         H(NS, "c16", "c16_wire_v4_uid16_mac12_time", "NTPv4 + 16 B unique id + 12 B MAC: re-encoded to 28 B, fits exactly"),
-        H(NS, "c16", "c16_wire_v4_uid16_mac9_time", "NTPv4 + 16 B unique id + 9 B MAC: answer would be longer than the request, nothing is sent"),
-        H(NS, "c16", "c16_wire_v5_time", "NTPv5 76 B: time answer padded to exactly 76 B", timeout=400),
-        H(NS, "c15", "c15_nts_client_nak", "80 B NTS request that cannot be decrypted: NAK is 48 B"),
+        H(NS, "c22", "c22_any_v4_56", "NTPv4 + 8 B trailer: answer 48 B"),
         H(NS, "c16", "c16_wire_v4_deny_allow", "NTPv4 48 B: DENY (allow list)", tier="thorough"),
         H(NS, "c16", "c16_wire_v3_time", "NTPv3 48 B time", tier="thorough"),
         H(NS, "c16", "c16_wire_v3_deny", "NTPv3 48 B DENY", tier="thorough"),
@@ -40,13 +40,7 @@ PROP = dict(
         H(NS, "c16", "c16_wire_v4_uid36_deny", "NTPv4 + unique id: DENY echoes it", tier="thorough"),
         H(NS, "c16", "c16_wire_v4_uid36_mac20_time", "NTPv4 + unique id + 20 B MAC", tier="thorough"),
         H(NS, "c16", "c16_wire_v4_uid36x2_time", "NTPv4 + two unique ids (120 B)", tier="thorough"),
-        H(NS, "c16", "c16_wire_v4_unknown_uid_time", "NTPv4 + unknown field + unique id", tier="thorough"),
         H(NS, "c16", "c16_wire_v4_cookie_ph_time", "NTPv4 + cookie + unknown field outside NTS", tier="thorough"),
-        H(NS, "c16", "c16_wire_v5_deny", "NTPv5 DENY", tier="thorough"),
-        H(NS, "c16", "c16_wire_v5_uid_time", "NTPv5 + unique id", tier="thorough"),
-        H(NS, "c16", "c16_wire_v5_uid_deny", "NTPv5 + unique id, DENY", tier="thorough"),
-        H(NS, "c16", "c16_wire_v5_refid_time", "NTPv5 + reference-id request", tier="thorough"),
-        H(NS, "c16", "c16_wire_v5_padding_time", "NTPv5 + padding field (30 B on the wire)", tier="thorough"),
-        H(NS, "c16", "c16_wire_v5_unknown_time", "NTPv5 + unknown field (17 B on the wire)", tier="thorough"),
+        H(NS, "c22", "c22_any_v3_53_55", "NTPv3 53/54/55 B", tier="thorough"),
     ],
 )
